@@ -111,6 +111,19 @@ static void dump_headers(Dump &d, const char *pfx, htp_table_t *t) {
         if (!h) continue;
         std::string q = p + strfmt(".%zu", i);
         putb(d, q + ".name", h->name); putb(d, q + ".value", h->value); putn(d, q + ".flags", (long long) h->flags);
+        // case-insensitive lookup with a re-cased name must return the first field of that name
+        if (h->name && bstr_len(h->name) > 0 && bstr_len(h->name) < 200) {
+            char nm[201]; size_t nl = bstr_len(h->name); memcpy(nm, bstr_ptr(h->name), nl); nm[nl] = 0;
+            bool has_nul = memchr(nm, 0, nl) != NULL;
+            for (size_t k = 0; k < nl; k++) nm[k] = (char) (isupper((unsigned char) nm[k]) ? tolower((unsigned char) nm[k]) : toupper((unsigned char) nm[k]));
+            if (!has_nul) {
+                htp_header_t *g = (htp_header_t *) htp_table_get_c(t, nm);
+                size_t first = n;
+                for (size_t j = 0; j < n; j++) { htp_header_t *o = (htp_header_t *) htp_table_get_index(t, j, NULL); if (o && o->name && bstr_cmp_nocase(o->name, h->name) == 0) { first = j; break; } }
+                htp_header_t *want = first < n ? (htp_header_t *) htp_table_get_index(t, first, NULL) : NULL;
+                put(d, q + ".lookup", g == want ? "ok" : "mismatch");
+            }
+        }
     }
 }
 
@@ -211,7 +224,7 @@ static TxRec &rec_for(Exec *ex, htp_tx_t *tx) {
     r.tx_ptr = tx;
     ConnState *cs = tx->connp ? (ConnState *) htp_connp_get_user_data(tx->connp) : g_cur_conn;
     r.conn = cs ? cs->idx : 0;
-    if (cs) { r.offered_at_start[0] = ex->res->conns[cs->idx].offered[0]; r.offered_at_start[1] = ex->res->conns[cs->idx].offered[1]; }
+    if (cs) { const ConnRes &cr = ex->res->conns[cs->idx]; for (int d = 0; d < 2; d++) r.offered_at_start[d] = ex->cur_call ? std::min(cr.offered_before_call[d], cr.offered[d]) : cr.offered[d]; }
     ex->res->txs.push_back(r);
     tx->user_data = (void *) (intptr_t) (r.ordinal + 1);
     if (cs) ex->res->conns[cs->idx].txs.push_back(r.ordinal);
@@ -375,6 +388,11 @@ static int tx_cb(int hook, htp_tx_t *tx) {
     if ((hook == HK_REQUEST_COMPLETE || hook == HK_RESPONSE_COMPLETE) && r) {
         int side = hook == HK_REQUEST_COMPLETE ? 0 : 1;
         r->eob_before_complete[side] = r->eob[side];
+        // C06 accounting half (all inputs): reported entity length == body bytes handed to callbacks
+        int64_t el = side == 0 ? tx->request_entity_len : tx->response_entity_len;
+        if (!r->cb_nonok[side] && !r->cb_declined_body[side] && el != r->body_seen[side])
+            violate(ex, "C06", side ? "C06.response_entity_len_vs_delivered" : "C06.request_entity_len_vs_delivered",
+                    strfmt("tx#%d entity_len=%lld delivered=%lld", r->ordinal, (long long) el, (long long) r->body_seen[side]));
     }
     int act = scripted_action(ex, hook);
     return apply_action(ex, hook, act, tx, r);
@@ -599,6 +617,7 @@ static int do_call(Exec *ex, ConnState &c, int dir, const Chunk &ch, long &consu
     bool counted = !(status_before == HTP_STREAM_STOP || status_before == HTP_STREAM_ERROR) && !(len == 0 && status_before != HTP_STREAM_CLOSED);
     if (dir == 0 && cp->in_tx == NULL && cp->in_state != htp_connp_REQ_IDLE) counted = false;
     if (dir == 1 && cp->out_tx == NULL && cp->out_state != htp_connp_RES_IDLE) counted = false;
+    R.conns[c.idx].offered_before_call[0] = R.conns[c.idx].offered[0]; R.conns[c.idx].offered_before_call[1] = R.conns[c.idx].offered[1];
     if (counted) R.conns[c.idx].offered[dir] += len;
     R.st.state_at_call[dir][dir == 0 ? cr.in_state : cr.out_state]++;
     struct timeval tv; tv.tv_sec = (time_t) (g_seams.now_us / 1000000); tv.tv_usec = (suseconds_t) (g_seams.now_us % 1000000);
@@ -615,6 +634,7 @@ static int do_call(Exec *ex, ConnState &c, int dir, const Chunk &ch, long &consu
     ex->cur_call = nullptr;
     if (buf) free(buf);   // the caller's chunk does not outlive the call: a later access is a use-after-free
     cr.rc = rc; cr.consumed = consumed; cr.ticks = g_seams.ticks - t0; cr.allocs = g_seams.n_total - a0;
+    cr.conn_flags_after = cp->conn ? (unsigned) cp->conn->flags : 0; cr.ntx_after = cp->conn && cp->conn->transactions ? (int) htp_list_size(cp->conn->transactions) : -1; cr.next_tx_after = (int) cp->out_next_tx_index;
     R.st.calls++;
     if (rc >= 0 && rc < 10) R.st.rc_count[dir][rc]++;
     if (ch.gap) { R.st.gaps++; if (rc == HTP_STREAM_DATA) R.st.gaps_accepted++; }
@@ -811,6 +831,7 @@ void exec_op(Exec *ex, const Op &op) {
         case 'C': {
             struct timeval tv; tv.tv_sec = (time_t) (g_seams.now_us / 1000000); tv.tv_usec = 0;
             R.st.closes++; R.st.state_at_close[0][state_id_in(c.connp)]++; R.st.state_at_close[1][state_id_out(c.connp)]++;
+            if (R.conns[c.idx].pre_close_status[0] < 0) { R.conns[c.idx].pre_close_status[0] = c.connp->in_status; R.conns[c.idx].pre_close_status[1] = c.connp->out_status; }
             g_cur_conn = &c;
             CallRec cr; memset(&cr, 0, sizeof cr); ex->cur_call = &cr;
             { ApiGuard g("htp_connp_close"); htp_connp_close(c.connp, &tv); }
